@@ -156,6 +156,22 @@ func c08Snapshot(c *Ctx) {
 	}
 }
 
+// snapshotFallbackRules (shared by C08 read-back and C06 configuration independence): a value is cached and returned as
+// committed only when the tier it came from answered — a failed snapshot read (layer stale, generator not there yet)
+// must fall through to the trie, otherwise a node with snapshots reads zero where a node without reads the value.
+func snapshotFallbackRules(c *Ctx) {
+	if fn := c.Fn("kai/state", "stateObject", "GetCommittedState"); fn != nil {
+		c.Guarded(fn, "cache the value as committed", func(in ssa.Instruction) bool {
+			mu, ok := in.(*ssa.MapUpdate)
+			return ok && pathOf(mu.Map) == "s.originStorage"
+		}, G("the snapshot read succeeded, or the trie answered", IsNil(`^(phi\()?call:iface:\(kai/state/snapshot\.Snapshot\)\.Storage\(.*#1(\|nil\))?$`), IsNil(`^call:iface:\(kai/state\.Trie\)\.GetStorage\(.*#1$`)))
+	}
+	if fn := c.Fn("kai/state", "StateDB", "getDeletedStateObject"); fn != nil {
+		c.Guarded(fn, "install the loaded account", CallTo(`^\(\*kai/state\.StateDB\)\.setStateObject$`, ""),
+			G("the snapshot answered with an account, or the trie answered", NotNil(`^phi\(&alloc:complit:types\.StateAccount\|nil\)$`), IsNil(`^call:iface:\(kai/state\.Trie\)\.GetAccount\(.*#1$`)))
+	}
+}
+
 // c08ReadPath: the order in which the state consults its tiers when reading committed data.
 func c08ReadPath(c *Ctx) {
 	if fn := c.Fn("kai/state", "stateObject", "GetCommittedState"); fn != nil {
@@ -192,6 +208,7 @@ func c08ReadPath(c *Ctx) {
 			return ok && pathOf(mu.Map) == "s.originStorage"
 		}, G("trie opened (when it was needed)", IsNil(`getTrie\(s, db\)#1$`), NotNil(`^s\.db\.snap$`)), G("trie read succeeded (when it was needed)", IsNil(`GetStorage\(.*#1$`), NotNil(`^s\.db\.snap$`)))
 	}
+	snapshotFallbackRules(c)
 	if fn := c.Fn("kai/state", "StateDB", "getDeletedStateObject"); fn != nil {
 		live := `^s\.stateObjects\[addr\]$`
 		snapRead := CallTo(`^iface:\(kai/state/snapshot\.Snapshot\)\.Account$`, "")
